@@ -159,6 +159,12 @@ def configs(tier):
             # grace period
             ('apply/second-exit-during-grace', [dict(ap, lost=2.0), ap], 2,
              dict(A, die=(-9,), die_idle=True, max_adv=2, depth=d + 2), pool),
+            # a worker killed between jobs, its last result not yet
+            # processed, the rest of the map not yet taken by anybody
+            ('map/1proc/dies-after-its-result', [mp], 1,
+             dict(A, die=(-9,), die_idle=True, depth=d + 3), pool),
+            ('imap_unordered/1proc/dies-after-its-result', [imu], 1,
+             dict(A, die=(-9,), die_idle=True, depth=d + 3), pool),
             # one part lost while its sibling is still running: several
             # supervision rounds pass before the sibling finishes
             ('imap_unordered/slow-sibling', [imu], 2,
